@@ -464,22 +464,23 @@ type heldCase struct {
 
 var heldObjects = ev.Register(&ev.P[heldCase]{
 	Name: "held_objects_unchanged",
-	Rule: "objects obtained earlier (a LunarYear with its month list and term Julian days, a LunarMonth, a Lunar and a Solar) are digested, a generated history of calls for other years runs, and the same objects are digested again; oracle: equal digests (a later call must not write into what an earlier call returned), and digesting the same objects again with the accessors in reverse order gives the same result (accessors are read-only); non-trivial: the history evicts the cached year at least twice",
+	Rule: "objects obtained earlier (a LunarYear with its month list and term Julian days, a LunarMonth, a Lunar inside the nines, a Lunar inside the dog days and a Solar) are digested, a generated history of calls for other years runs, then objects DERIVED from the held ones are used freely (Next(0), round trips, the exported view constructors NewEightChar/NewTaoFromLunar/NewFotoFromLunar/NewLunarFromSolar, public setters of returned charts, terms, ShuJiu and Fu objects, stepping calls), and the same objects are digested again; oracle: equal digests (a later call must not write into what an earlier call returned), and digesting the same objects again with the accessors in reverse order gives the same result (accessors are read-only); non-trivial: the history evicts the cached year at least twice",
 	Check: func(c heldCase) error {
 		calendar.VerifResetYearCache()
 		ly := calendar.NewLunarYear(c.Y)
 		lm := calendar.NewLunarMonthFromYm(c.Y, 1)
 		l := calendar.NewLunarFromYmd(c.Y, 1, 1)
 		s := l.GetSolar()
+		lf := calendar.NewSolarFromYmd(c.Y, 7, 25).GetLunar() // a day inside the dog days (the New Year date is inside the nines)
 		jq := append([]float64(nil), ly.GetJieQiJulianDays()...)
-		before := []string{digestString(dig.Of(ly, 1)), digestString(dig.Of(lm, 0)), digestString(dig.Of(l, 1)), digestString(dig.Of(s, 0))}
+		before := []string{digestString(dig.Of(ly, 1)), digestString(dig.Of(lm, 0)), digestString(dig.Of(l, 1)), digestString(dig.Of(s, 0)), digestString(dig.Of(lf, 1))}
 		// read-only accessors: asking everything again in the opposite order changes nothing
 		dig.Reverse = true
-		rev := []string{digestString(dig.Of(ly, 1)), digestString(dig.Of(lm, 0)), digestString(dig.Of(l, 1)), digestString(dig.Of(s, 0))}
+		rev := []string{digestString(dig.Of(ly, 1)), digestString(dig.Of(lm, 0)), digestString(dig.Of(l, 1)), digestString(dig.Of(s, 0)), digestString(dig.Of(lf, 1))}
 		dig.Reverse = false
 		for i := range before {
 			if before[i] != rev[i] {
-				return fmt.Errorf("the %s for year %d answers differently when its accessors are called again in reverse order (an accessor changes the object)", []string{"LunarYear", "LunarMonth", "Lunar", "Solar"}[i], c.Y)
+				return fmt.Errorf("the %s for year %d answers differently when its accessors are called again in reverse order (an accessor changes the object)", []string{"LunarYear", "LunarMonth", "Lunar", "Solar", "Lunar (July)"}[i], c.Y)
 			}
 		}
 		for _, h := range c.History {
@@ -497,6 +498,26 @@ var heldObjects = ev.Register(&ev.P[heldCase]{
 				_, _, _, _ = o.NextHour(1), o.NextDay(1), o.GetLunar().GetEightChar(), o.ToYmdHms()
 				o.GetLunar().GetEightChar().SetSect(1)
 			}
+			// the exported constructors of views (chart, Taoist/Buddhist date, lunar date of a civil date, term object)
+			// build a NEW view each time: the held date keeps its own chart and its switch
+			for k := 0; k < 2; k++ {
+				ne := calendar.NewEightChar(l)
+				ne.SetSect(1)
+				_, _, _ = calendar.NewTaoFromLunar(l).GetFestivals(), calendar.NewFotoFromLunar(l).GetFestivals(), calendar.NewLunarFromSolar(s).GetEightChar()
+				calendar.NewLunarFromSolar(l.GetSolar()).GetEightChar().SetSect(1)
+				_ = calendar.NewJieQi("冬至", s).GetSolar().NextDay(1)
+			}
+			// objects handed out by accessors are the caller's: their public setters are used on them
+			for _, d := range []*calendar.Lunar{l, lf, l.Next(0), lf.GetSolar().GetLunar()} {
+				if x := d.GetShuJiu(); x != nil {
+					x.SetName("改")
+					x.SetIndex(77)
+				}
+				if x := d.GetFu(); x != nil {
+					x.SetName("改")
+					x.SetIndex(77)
+				}
+			}
 			if q := l.GetPrevJieQi(); q != nil {
 				q.SetName("x")
 				q.SetSolar(s.NextDay(3))
@@ -509,8 +530,8 @@ var heldObjects = ev.Register(&ev.P[heldCase]{
 			}
 			_, _ = ly.Next(0).GetMonths(), ly.Next(1)
 		}()
-		after := []string{digestString(dig.Of(ly, 1)), digestString(dig.Of(lm, 0)), digestString(dig.Of(l, 1)), digestString(dig.Of(s, 0))}
-		names := []string{"LunarYear", "LunarMonth", "Lunar", "Solar"}
+		after := []string{digestString(dig.Of(ly, 1)), digestString(dig.Of(lm, 0)), digestString(dig.Of(l, 1)), digestString(dig.Of(s, 0)), digestString(dig.Of(lf, 1))}
+		names := []string{"LunarYear", "LunarMonth", "Lunar", "Solar", "Lunar (July)"}
 		for i := range before {
 			if before[i] != after[i] {
 				return fmt.Errorf("the %s obtained for year %d changed after %d later calls (first: %+v)", names[i], c.Y, len(c.History), c.History[0])
